@@ -1,6 +1,8 @@
 """C09 - cell division yields two valid daughters or leaves the mother untouched."""
+import os
 import runner as R
 from runner import Inv, Merged
+from checks.C15 import tsan_reports
 
 ID = "C09"
 MANIFEST = (
@@ -51,6 +53,17 @@ def run(tier, seed, t0):
     R.run_inv(Inv("division", n, "plain", args=common, timeout=T(tier, 1500, 6 * 3600)), seed, wd, m)
     na = T(tier, 48, 1200)
     R.run_inv(Inv("division", na, "asan", args=common + ["--xmin=0.07"], first=n, timeout=T(tier, 1500, 6 * 3600)), seed, wd, m)
+    # populations in which several cells divide in the same call, 4 threads, under ThreadSanitizer: a race inside cell_divider (a daughter pair seen by two threads, a shared
+    # scratch buffer) loses or duplicates a daughter only now and then; the race itself is reported every time
+    tenv = {"TSAN_OPTIONS": "halt_on_error=0:exitcode=0:log_path=%s:history_size=4:external_symbolizer_path=%s" % (os.path.join(wd, "tsan"), R.SYMBOLIZER)}
+    mt = Merged(); R.run_inv(Inv("division", T(tier, 10, 200), "tsan", args=common + ["--run_share=1", "--mt_share=1", "--xmin=0.1"], shards=5, first=7000000, timeout=T(tier, 1500, 6 * 3600), env=tenv, tag="division/tsan/run/t4"), seed, wd, mt)
+    m.violations += [v for v in mt.violations if not v.get("crash")]; m.inconclusive += mt.inconclusive; m.harness_failures += mt.harness_failures
+    m.add_bins({"tsan_populations": mt.evaluations, "tsan_divisions": mt.bins.get("divisions", 0)})
+    reps, total_reports, norepo = tsan_reports(wd, R.builder.repo_dir())
+    for key, (cnt, sample) in sorted(reps.items()):
+        if "cell_divider" in key:
+            m.violations.append({"key": "division." + key, "msg": "%d reports, first:\n%s" % (cnt, sample), "obs": {"reports": cnt}, "inv": "tsan",
+                                 "replay": {"custom": True, "flavour": "tsan", "argv": ["python3", "check.py", "C09", "--tier", tier, "--seed", str(seed)], "note": "race reports vary from run to run: re-run the check"}})
     # an exception escaping divide_cell / run (noexcept => terminate) is this property's violation; other crashes belong to C10
     for v in m.violations:
         if v.get("crash") and v["key"].startswith("crash:terminate"):
@@ -62,6 +75,7 @@ def run(tier, seed, t0):
     b = m.bins; div = b.get("divisions", 0); succ = b.get("success", 0); fail = b.get("clean_failure", 0)
     floors = {
         "divisions": (div, T(tier, 300, 20000)),
+        "divisions_under_thread_sanitizer": (b.get("tsan_divisions", 0), T(tier, 10, 300)),
         "calls_with_a_tiny_minimum_edge_length": (b.get("tiny_lmin_at_the_call", 0), T(tier, 5, 400)),
         "successes_30_percent": (succ, 0.30 * max(div, 1)),
         "clean_failures": (fail, T(tier, 40, 2000)),
